@@ -568,6 +568,38 @@ func CollectionProgs() []Prog {
 			}
 		}})
 	}
+	// the input is a window of a larger array (spare capacity behind it), and two values are drawn and
+	// kept: neither the caller's array around the window nor an earlier value may change
+	for n := 1; n <= 3; n++ {
+		n := n
+		ps = append(ps, Prog{Name: fmt.Sprintf("Permutation(window of %d in an array of %d)x2", n, 3*n+2), Tags: "coll", New: func() func(t *rapid.T, r *Rec) {
+			all := make([]int, 3*n+2)
+			for i := range all {
+				all[i] = 100 + i
+			}
+			in := all[1 : 1+n]
+			origAll := append([]int(nil), all...)
+			g := rapid.Permutation(in)
+			return func(t *rapid.T, r *Rec) {
+				v1 := g.Draw(t, "p1")
+				keep1 := append([]int(nil), v1...)
+				v2 := g.Draw(t, "p2")
+				r.Draws = append(r.Draws, Render(keep1), Render(v2))
+				if !reflect.DeepEqual(all, origAll) {
+					r.bad("drawing from Permutation(all[1:%d]) changed the caller's array: %v, was %v", 1+n, all, origAll)
+					copy(all, origAll)
+				}
+				if !reflect.DeepEqual(v1, keep1) {
+					r.bad("the first drawn permutation %v turned into %v when the second one was drawn", keep1, v1)
+				}
+				for _, v := range [][]int{keep1, v2} {
+					if !reflect.DeepEqual(sortedCopy(v), sortedCopy(origAll[1:1+n])) {
+						r.bad("Permutation result %v is not a permutation of %v", v, origAll[1:1+n])
+					}
+				}
+			}
+		}})
+	}
 	return ps
 }
 
@@ -788,6 +820,52 @@ func CombinatorProgs() []Prog {
 		one("Make[map[int8]*bool]", "comb rej", rapid.Make[map[int8]*bool], nil),
 		one("Make[[0]int]", "comb", rapid.Make[[0]int], nil),
 		one("Make[struct{}]", "comb", rapid.Make[struct{}], nil),
+		// Custom functions that reject some of their attempts - directly, from a Cleanup function they
+		// registered, or through a draw that gives up inside that Cleanup: a rejected attempt's value is never handed out
+		one("Custom(IntRange(0,7), odd rejected by Skip)", "comb rej", func() *rapid.Generator[int] {
+			return rapid.Custom(func(t *rapid.T) int {
+				v := rapid.IntRange(0, 7).Draw(t, "v")
+				if v%2 == 1 {
+					t.Skip("odd")
+				}
+				return v
+			})
+		}, evenOnly),
+		one("Custom(IntRange(0,7), odd rejected by Skip in its Cleanup)", "comb rej", func() *rapid.Generator[int] {
+			return rapid.Custom(func(t *rapid.T) int {
+				v := rapid.IntRange(0, 7).Draw(t, "v")
+				t.Cleanup(func() {
+					if v%2 == 1 {
+						t.SkipNow()
+					}
+				})
+				return v
+			})
+		}, evenOnly),
+		one("Custom(IntRange(0,7), odd rejected by a draw that gives up in its Cleanup)", "comb rej", func() *rapid.Generator[int] {
+			never := rapid.Bool().Filter(func(bool) bool { return false })
+			return rapid.Custom(func(t *rapid.T) int {
+				v := rapid.IntRange(0, 7).Draw(t, "v")
+				t.Cleanup(func() {
+					if v%2 == 1 {
+						never.Draw(t, "never")
+					}
+				})
+				return v
+			})
+		}, evenOnly),
+		one("Custom(Custom(IntRange(0,7), odd rejected in the inner Cleanup))", "comb rej", func() *rapid.Generator[int] {
+			inner := rapid.Custom(func(t *rapid.T) int {
+				v := rapid.IntRange(0, 7).Draw(t, "v")
+				t.Cleanup(func() {
+					if v%2 == 1 {
+						t.Skip("odd")
+					}
+				})
+				return v
+			})
+			return rapid.Custom(func(t *rapid.T) int { return inner.Draw(t, "inner") })
+		}, evenOnly),
 		// Make for named (defined) types of every kind, at top level and nested: the value has the requested type
 		one("Make[nPtr]", "comb", rapid.Make[nPtr], nil),
 		one("Make[nPtrPtr]", "comb", rapid.Make[nPtrPtr], nil),
@@ -914,4 +992,11 @@ func AllProgs() []Prog {
 	ps = append(ps, NestedProgs()...)
 	ps = append(ps, MachineProgs()...)
 	return ps
+}
+
+func evenOnly(v int) string {
+	if v%2 != 0 {
+		return "a value of a rejected attempt was handed out"
+	}
+	return ""
 }
